@@ -102,11 +102,25 @@ class Replica:
         self.config = core.config
 
     def clear_caches(self):
-        C = self.Container
-        for name in ('dataframe', '_repr_html_', '__repr__', 'has_liquid', 'get_substances'):
-            fn = getattr(C, name, None)
-            if fn is not None and hasattr(fn, 'cache_clear'):
-                fn.cache_clear()
+        """Clear every functools cache reachable from the library's modules and classes (not only the ones known today),
+        so that a run never depends on earlier runs of the same worker process."""
+        seen = set()
+        for mod in (self.core, self.slicer, self.pkg):
+            for name, obj in list(vars(mod).items()):
+                objs = [obj]
+                if isinstance(obj, type) and getattr(obj, '__module__', '').startswith('pyplate'):
+                    objs += [v for v in vars(obj).values()]
+                for o in objs:
+                    f = getattr(o, '__func__', o)
+                    if id(f) in seen:
+                        continue
+                    seen.add(id(f))
+                    cc = getattr(f, 'cache_clear', None)
+                    if callable(cc):
+                        try:
+                            cc()
+                        except Exception:
+                            pass
 
 
 _replicas = {}
